@@ -209,6 +209,61 @@ example : admissible current (freshWorld demoMol) demoHist = true := by decide +
 example : ((runHist current (freshWorld demoMol) demoHist).objs.map fun o => (o.mol.ids, coherent o.toCore)) =
     [([1, 2, 3], true), ([1, 2, 3, 4], true)] := by decide +kernel
 
+/-! ## the whole transaction -/
+
+theorem enter_events : expand current.fns expandFuel "MoleculeContainer.__enter__" [] = [⟨[], .backupCopy .yes .yes⟩] := by
+  decide +kernel
+
+/-- `__enter__` of today's code stores a snapshot of the object and changes nothing else -/
+theorem enter_spec (w : World) (i : Nat) (o : Obj) (obs : List String) (hget : w.objs[i]? = some o) :
+    ∃ o', (step current w (.enter i) obs).w.objs[i]? = some o' ∧ o'.toCore = o.toCore ∧
+      o'.backup = some (some (copyCore current o.toCore w.vecs true true).1) := by
+  unfold step
+  simp only [Op.target, hget]
+  unfold runFn
+  rw [enter_events]
+  simp only [interp, decideGuards, stepEv, flagBool]
+  exact ⟨_, getElem?_setObj_self _ hget, rfl, rfl⟩
+
+/-- **txn_atomic** (today's code): `with mol:` … any operations that are not a nested enter/exit of the same object
+(on this or on other objects) … raise ⇒ the molecule has exactly the atoms, bonds, stored hydrogens, labels, name and
+meta it had when the block was entered, nothing pending, no backup. -/
+theorem txn_atomic (w0 : World) (i : Nat) (o0 : Obj) (obs0 obsE : List String) (hget : w0.objs[i]? = some o0)
+    (h : List (Op × List String)) (hfree : ∀ x ∈ h, txnFree i x.1 = true)
+    (herr : (step current (runHist current (step current w0 (.enter i) obs0).w h) (.exitExc i) obsE).err = none) :
+    ∃ o', (step current (runHist current (step current w0 (.enter i) obs0).w h) (.exitExc i) obsE).w.objs[i]? = some o' ∧
+      o'.mol = o0.mol ∧ o'.hs = o0.hs ∧ o'.labels = o0.labels ∧ o'.name = o0.name ∧ o'.info = o0.info ∧
+      o'.changed = some none ∧ o'.backup = some none := by
+  obtain ⟨o1, hg1, _, hb1⟩ := enter_spec w0 i o0 obs0 hget
+  generalize (step current w0 (.enter i) obs0).w = w1 at hg1 herr ⊢
+  generalize hbk : (copyCore current o0.toCore w0.vecs true true).1 = bk at hb1
+  -- the snapshot survives the block
+  have key : ∀ (h : List (Op × List String)) (w : World) (o : Obj), w.objs[i]? = some o → o.backup = some (some bk) →
+      (∀ x ∈ h, txnFree i x.1 = true) → ∃ o', (runHist current w h).objs[i]? = some o' ∧ o'.backup = some (some bk) := by
+    intro h
+    induction h with
+    | nil => intro w o hg hb _; exact ⟨o, hg, hb⟩
+    | cons x rest ih =>
+      intro w o hg hb hf
+      obtain ⟨op, obs⟩ := x
+      obtain ⟨o2, hg2, hb2⟩ := step_backup_current w op obs i o hg (hf (op, obs) (by simp))
+      simp only [runHist]
+      exact ih _ o2 hg2 (by rw [hb2]; exact hb) (fun y hy => hf y (by simp [hy]))
+  obtain ⟨o2, hg2, hb2⟩ := key h w1 o1 hg1 hb1 hfree
+  obtain ⟨o', hg', hcore, hch, hbk'⟩ := txn_abort_restores tables_ok_current hg2 hb2 herr
+  refine ⟨o', hg', ?_, ?_, ?_, ?_, ?_, hch, hbk'⟩
+  · rw [show o'.mol = o'.toCore.mol from rfl, hcore, ← hbk]; rfl
+  · rw [show o'.hs = o'.toCore.hs from rfl, hcore, ← hbk]; rfl
+  · rw [show o'.labels = o'.toCore.labels from rfl, hcore, ← hbk]; rfl
+  · rw [show o'.name = o'.toCore.name from rfl, hcore, ← hbk]
+    exact (enter_snapshot o0.toCore w0.vecs true true).2.2.2.1
+  · rw [show o'.info = o'.toCore.info from rfl, hcore, ← hbk]
+    exact (enter_snapshot o0.toCore w0.vecs true true).2.2.2.2.1
+/-- the hypotheses of `txn_atomic` are satisfiable: a block that deletes an atom and adds another, then raises -/
+example : (step current (runHist current (step current (freshWorld demoMol) (.enter 0) []).w
+    [(.delAtom 0 2 false, []), (.addAtom 0 7 none false, []), (.read 0 "sssr", ["sssr"])]) (.exitExc 0) []).err = none := by
+  decide +kernel
+
 /-! ## the adjacency stays symmetric -/
 
 /-- **wf_preserved** (edits): each raw graph edit the interpreter installs — `add_atom`, `add_bond`, `delete_atom`,
